@@ -72,7 +72,15 @@ public:
 
 	~CCsvWriteObjectScope()
 	{
-		mCsvWriter->NextLine();
+		try
+		{
+			mCsvWriter->NextLine();
+		}
+		catch (...)
+		{
+			// A destructor must not throw (e.g. mismatched number of values), the error will be reported by `Finalize()` of the root scope
+			GetContext().DeferError(std::current_exception());
+		}
 	}
 
 	/// <summary>
@@ -167,7 +175,13 @@ public:
 		return std::make_optional<CsvWriteArrayScope>(mCsvWriter, GetContext());
 	}
 
-	void Finalize() const noexcept { /* Not required */ }
+	/// <summary>
+	/// Reports the error that occurred when a row was being completed (at closing the scope of object).
+	/// </summary>
+	void Finalize() const
+	{
+		GetContext().RethrowDeferredError();
+	}
 
 private:
 	ICsvWriter* mCsvWriter = nullptr;
